@@ -682,7 +682,7 @@ def pattern_subi32(context, tree, c0, c1):
     "reg",
     "ADDI32(reg, CONSTI32)",
     size=1,
-    condition=lambda t: t.children[1].value < 256,
+    condition=lambda t: t.children[1].value in range(-2048, 256),
 )
 def pattern_addi32_1(context, tree, c0):
     d = context.new_reg(RiscvRegister)
@@ -695,7 +695,7 @@ def pattern_addi32_1(context, tree, c0):
     "reg",
     "ADDI32(CONSTI32, reg)",
     size=1,
-    condition=lambda t: t.children[0].value < 256,
+    condition=lambda t: t.children[0].value in range(-2048, 256),
 )
 def pattern_addi32_2(context, tree, c0):
     d = context.new_reg(RiscvRegister)
@@ -708,51 +708,12 @@ def pattern_addi32_2(context, tree, c0):
     "reg",
     "SHLI32(reg, CONSTI32)",
     size=1,
-    condition=lambda t: t.children[1].value < 16,
+    condition=lambda t: t.children[1].value in range(16),
 )
 def pattern_shli32_1_(context, tree, c0):
     d = context.new_reg(RiscvRegister)
     c1 = tree.children[1].value
     context.emit(Slliv(d, c0, c1))
-    return d
-
-
-@rvcisa.pattern(
-    "reg",
-    "SHLI32(CONSTI32, reg)",
-    size=1,
-    condition=lambda t: t.children[0].value < 16,
-)
-def pattern_shli32_2(context, tree, c0):
-    d = context.new_reg(RiscvRegister)
-    c1 = tree.children[0].value
-    context.emit(Slliv(d, c0, c1))
-    return d
-
-
-@rvcisa.pattern(
-    "reg",
-    "SHRI32(reg, CONSTI32)",
-    size=1,
-    condition=lambda t: t.children[1].value < 16,
-)
-def pattern_shri32(context, tree, c0):
-    d = context.new_reg(RiscvRegister)
-    c1 = tree.children[1].value
-    context.emit(Srliv(d, c0, c1))
-    return d
-
-
-@rvcisa.pattern(
-    "reg",
-    "SHRI32(CONSTI32, reg)",
-    size=1,
-    condition=lambda t: t.children[0].value < 16,
-)
-def pattern_stri32_const(context, tree, c0):
-    d = context.new_reg(RiscvRegister)
-    c1 = tree.children[0].value
-    context.emit(Srliv(d, c0, c1))
     return d
 
 
